@@ -3,30 +3,47 @@ package server
 // C19 — telemetry can be switched off and never carries user data.
 //
 // One real server whose HTTP traffic goes to a recorder (http.DefaultTransport is replaced; the
-// collector's client has no transport of its own). The configuration reaches the server through
-// every documented route — programmatic Config, YAML file, environment variable, file plus
-// environment — asking for telemetry on or off; the server holds streams, subjects, messages and
-// NATS credentials with recognisable contents; simulated days pass, the server is stopped,
-// crashed and restarted. Oracle: disabled => not one request, ever (also not while stopping);
-// enabled => requests only to the telemetry endpoint, whose JSON body has exactly the documented
-// fields, a random-UUID instance id that is stable across restarts, and contains none of the
-// recognisable user strings.
+// collector's client has no transport of its own - which is verified, see "blind" below). The
+// configuration reaches the server through every documented route — programmatic Config, YAML
+// file, environment variable, file plus environment, a file that enables telemetry (or names only
+// its interval) plus an environment that disables it — asking for telemetry on or off, and in a
+// share of the programs the operator changes his mind between two starts; the server holds
+// streams, subjects, messages and NATS credentials with recognisable contents, and in a share of
+// the programs also a recognisable server id, namespace, host, NATS server list and data
+// directory; simulated days pass, the server is stopped, crashed and restarted, its instance id
+// file is pre-seeded, broken or deleted.
+//
+// Oracle, per incarnation of the server (a request is attributed to the incarnation whose task
+// made it): disabled => not one request, ever (also not while stopping); enabled => requests
+// only to the telemetry endpoint itself, with whitelisted headers, whose JSON body has exactly
+// the documented fields holding what they are documented to hold (the version, the time of the
+// report, facts about the machine), a random-UUID instance id that is the one found in the
+// instance id file, stable across restarts and a different one after the file was deleted; and
+// neither body nor URL nor headers contain any of the recognisable strings.
+//
+// Blindness (tooling trouble, not a verdict): an enabled collector with a transport of its own,
+// or an enabled incarnation that lived through more than a reporting interval without a request
+// reaching the recorder, means the check cannot see what the server sends.
 
 import (
 	"bytes"
 	"encoding/json"
 	"fmt"
 	"io"
+	"math"
 	"net/http"
 	"os"
 	"path/filepath"
+	"reflect"
 	"regexp"
+	"runtime"
 	"sort"
 	"strings"
 	"testing"
 	"time"
 
 	client "github.com/liftbridge-io/liftbridge-api/v2/go"
+	"github.com/liftbridge-io/liftbridge/server/telemetry"
 
 	"verif.local/simrt"
 	"verif.local/simrt/hx"
@@ -34,14 +51,42 @@ import (
 
 var c19mix = []weighted{{"sleep", 30}, {"create", 15}, {"publish", 15}, {"restart", 12}, {"crash", 8}, {"stop", 5}}
 
+// the endpoint ("hardcoded, not configurable"; the change log names its host)
+const c19Endpoint = "https://telemetry.basekick.net/api/v1/liftbridge/telemetry"
+
 func genC19(r *simrt.Rand, tier string, idx int) *hx.Program {
 	p := &hx.Program{P: map[string]int64{}}
 	p.P["sticky"] = 90
 	p.P["lockyield"] = 20
-	p.P["route"] = int64(r.Intn(4))   // 0 programmatic, 1 file, 2 environment, 3 file + environment
+	if r.Pct(1) {
+		// simulated days pass (an idle server costs about 1400 scheduling steps per simulated hour: a share of the programs only)
+		p.P["days"] = 1
+		p.P["maxsteps"] = 2000000
+	}
+	// 0 programmatic, 1 file, 2 environment, 3 file (silent about telemetry) + environment,
+	// 4 file that enables telemetry or names only its interval + environment that disables it
+	p.P["route"] = int64(r.Intn(5))
 	p.P["enabled"] = int64(r.Intn(2)) // what the operator asks for
-	p.P["interval_s"] = []int64{0, 3600, 86400}[r.Intn(3)]
-	if p.P["interval_s"] == 0 && p.P["enabled"] == 0 && r.Pct(50) {
+	if p.P["route"] == 4 {
+		// route 4 is about the environment's "off" overriding the file: "enabled" here means that the variable
+		// is not set (the file decides), which is worth a run only now and then (and as the other side of a flip)
+		p.P["enabled"] = 0
+		if r.Pct(20) {
+			p.P["enabled"] = 1
+		}
+		p.P["fileform"] = int64(r.Intn(3)) // the file: 0 names only the interval, 1 enabled: true, 2 both
+	}
+	p.P["interval_s"] = []int64{0, 3600, 86400, 60}[r.Intn(4)] // 0: left at its default (24 h)
+	if p.P["days"] == 0 && p.P["interval_s"] == 86400 {
+		p.P["interval_s"] = 60
+	}
+	mix := append([]weighted(nil), c19mix...)
+	if r.Pct(35) {
+		// the operator changes the setting between two starts (same route); every incarnation is judged by its own setting
+		p.P["flips"] = 1
+		mix = append(mix, weighted{"flip", 10})
+	}
+	if p.P["interval_s"] == 0 && p.P["enabled"] == 0 && p.P["flips"] == 0 && r.Pct(50) {
 		// the interval is given as 0 explicitly (not left at its default). Only judged with telemetry switched
 		// off - the off switch must hold whatever the other telemetry settings say; with telemetry on, an
 		// interval of 0 makes the collector's ticker panic, which is a configuration matter outside C19
@@ -50,23 +95,69 @@ func genC19(r *simrt.Rand, tier string, idx int) *hx.Program {
 	p.P["envform"] = int64(r.Intn(3)) // how "false"/"true" is spelled in the environment
 	if r.Pct(20) {
 		p.P["idfault"] = int64(1 + r.Intn(2)) // disk fault: the instance id file cannot be written (1) / is empty and read-only (2)
+	} else if r.Pct(30) {
+		p.P["seedid"] = int64(1 + r.Intn(1<<30)) // an instance id file from an earlier life of the installation (valid UUID, padded with white space)
+	}
+	if r.Pct(50) {
+		p.P["marked"] = 1 // recognisable server id, namespace, host, NATS servers, data directory
+	}
+	if r.Pct(30) {
+		mix = append(mix, weighted{"delid", 8}) // the instance id file is deleted while the server is down
+	}
+	if r.Pct(20) {
+		p.P["twin"] = 1 // a second installation's collector is created next to the server: its id must be another one
 	}
 	n := 4 + r.Intn(12)
 	for i := 0; i < n; i++ {
-		p.Ops = append(p.Ops, hx.Op{K: pickWeighted(r, c19mix), A: []int64{int64(r.Intn(8)), int64(r.Intn(8))}})
+		p.Ops = append(p.Ops, hx.Op{K: pickWeighted(r, mix), A: []int64{int64(r.Intn(8)), int64(r.Intn(8))}})
 	}
+	// the run ends with the program, not in the middle of a sleep (the engine's default horizon is one simulated hour)
+	total := time.Hour
+	for _, op := range p.Ops {
+		if op.K == "sleep" {
+			total += c19Sleep(p, op)
+		}
+	}
+	p.P["horizon_s"] = int64(total/time.Second) + int64(len(p.Ops))*300
 	return p
 }
 
+// c19Sleep is how long a sleep op sleeps: seconds to an hour in most programs, hours to days in some.
+func c19Sleep(p *hx.Program, op hx.Op) time.Duration {
+	if p.Param("days", 0) == 1 {
+		return []time.Duration{time.Hour, 25 * time.Hour, 49 * time.Hour, time.Second}[int(op.Arg(0, 0))%4]
+	}
+	return []time.Duration{time.Second, time.Minute, 20 * time.Minute, 65 * time.Minute}[int(op.Arg(0, 0))%4]
+}
+
 type c19Request struct {
-	url  string
-	body []byte
-	at   time.Duration
+	url    string
+	method string
+	header http.Header
+	body   []byte
+	at     time.Duration
+	wall   time.Time // the (simulated) wall clock when the request was made
+	node   int       // simulation node of the task that made the request (-1: none)
+	inc    int       // incarnation that was the current one at that moment
+}
+
+// c19Inc is one incarnation of the server: from one start to the next.
+type c19Inc struct {
+	node      int
+	want      bool // what its configuration asked for
+	started   bool
+	collector bool // the server created a collector
+	epoch     int  // counts deletions of the instance id file
+	seeded    bool // the instance id file it found is the pre-seeded one
+	upSleep   time.Duration
+	interval  time.Duration
+	requests  int
 }
 
 type c19Recorder struct {
 	sim  *simrt.Sim
 	reqs []c19Request
+	cur  int
 }
 
 func (r *c19Recorder) RoundTrip(req *http.Request) (*http.Response, error) {
@@ -74,7 +165,11 @@ func (r *c19Recorder) RoundTrip(req *http.Request) (*http.Response, error) {
 	if req.Body != nil {
 		body, _ = io.ReadAll(req.Body)
 	}
-	r.reqs = append(r.reqs, c19Request{url: req.URL.String(), body: body, at: r.sim.Now()})
+	node := -1
+	if t := simrt.Cur(); t != nil {
+		node = t.Node
+	}
+	r.reqs = append(r.reqs, c19Request{url: req.URL.String(), method: req.Method, header: req.Header.Clone(), body: body, at: r.sim.Now(), wall: time.Now(), node: node, inc: r.cur})
 	r.sim.Count("probe.http_requests")
 	return &http.Response{StatusCode: 200, Status: "200 OK", Body: io.NopCloser(bytes.NewReader(nil)), Header: http.Header{}, Request: req}, nil
 }
@@ -89,6 +184,9 @@ var c19Fields = map[string]bool{
 	"memory": true, "memory.total_gb": true,
 }
 
+// what a request may carry besides its body: the headers the collector sets and those any HTTP client adds
+var c19Headers = map[string]bool{"Content-Type": true, "User-Agent": true, "Content-Length": true, "Accept": true, "Accept-Encoding": true}
+
 func c19Keys(prefix string, v any, out *[]string) {
 	if m, ok := v.(map[string]any); ok {
 		for k, x := range m {
@@ -102,11 +200,99 @@ func c19Keys(prefix string, v any, out *[]string) {
 	}
 }
 
+// c19MachineFacts are the strings an "operating system" field may be made of: whatever way the
+// server chooses to describe the machine's operating system, architecture and runtime.
+func c19MachineFacts() []string {
+	facts := []string{runtime.Version(), runtime.GOOS, runtime.GOARCH, "unknown"}
+	facts = append(facts, map[string][]string{"amd64": {"x86_64", "x86-64", "x64"}, "arm64": {"aarch64"}, "386": {"i386", "i686", "x86"}}[runtime.GOARCH]...)
+	for _, f := range []string{"/proc/sys/kernel/osrelease", "/proc/sys/kernel/ostype"} {
+		if b, err := os.ReadFile(f); err == nil && len(bytes.TrimSpace(b)) > 0 {
+			facts = append(facts, string(bytes.TrimSpace(b)))
+		}
+	}
+	if b, err := os.ReadFile("/etc/os-release"); err == nil {
+		for _, l := range strings.Split(string(b), "\n") {
+			for _, k := range []string{"ID=", "NAME=", "VERSION_ID=", "VERSION=", "PRETTY_NAME=", "VERSION_CODENAME="} {
+				if v := strings.Trim(strings.TrimPrefix(l, k), `"' `); strings.HasPrefix(l, k) && v != "" {
+					facts = append(facts, v)
+				}
+			}
+		}
+	}
+	sort.SliceStable(facts, func(i, j int) bool { return len(facts[i]) > len(facts[j]) }) // longest first: "x86_64" before "x86"
+	return facts
+}
+
+var c19Separators = regexp.MustCompile(`^[-_/ .,;:()+]*$`)
+
+// c19OnlyMachineFacts reports whether s says nothing but facts about the machine.
+func c19OnlyMachineFacts(s string, facts []string) bool {
+	rest := strings.ToLower(s)
+	for _, f := range facts {
+		rest = strings.ReplaceAll(rest, strings.ToLower(f), "")
+	}
+	return c19Separators.MatchString(rest)
+}
+
+func c19MemTotalGB() float64 {
+	b, err := os.ReadFile("/proc/meminfo")
+	if err != nil {
+		return 0
+	}
+	var kb float64
+	for _, l := range strings.Split(string(b), "\n") {
+		if strings.HasPrefix(l, "MemTotal:") {
+			fmt.Sscanf(strings.TrimSpace(strings.TrimPrefix(l, "MemTotal:")), "%f", &kb)
+		}
+	}
+	return kb / (1024 * 1024)
+}
+
+// c19SeedID is the instance id (a valid version 4 UUID) a program pre-seeds, and the white space around it.
+func c19SeedID(seed int64) (id, padded string) {
+	r := simrt.NewRand(uint64(seed))
+	b := make([]byte, 16)
+	for i := range b {
+		b[i] = byte(r.Intn(256))
+	}
+	b[6] = b[6]&0x0f | 0x40
+	b[8] = b[8]&0x3f | 0x80
+	id = fmt.Sprintf("%x-%x-%x-%x-%x", b[0:4], b[4:6], b[6:8], b[8:10], b[10:16])
+	pads := []string{"", "\n", " ", "\r\n", "\t", " \n\n", "\n \t"}
+	return id, pads[r.Intn(len(pads))] + id + pads[1+r.Intn(len(pads)-1)]
+}
+
+// c19OwnTransport reports whether the collector's HTTP client has a transport of its own (then its
+// requests do not pass http.DefaultTransport, where the recorder sits).
+func c19OwnTransport(c *telemetry.Collector) (own bool) {
+	defer func() {
+		if recover() != nil {
+			own = true // the collector is not built the way this harness knows: treat as not observable
+		}
+	}()
+	cl := reflect.ValueOf(c).Elem().FieldByName("client")
+	if cl.Kind() == reflect.Pointer {
+		if cl.IsNil() {
+			return true
+		}
+		cl = cl.Elem()
+	}
+	return !cl.FieldByName("Transport").IsNil()
+}
+
 func execC19(t *testing.T, prog *hx.Program, dec *simrt.Decider, verbose bool) *hx.Outcome {
 	route, want := prog.Param("route", 0), prog.Param("enabled", 1) == 1
 	interval := prog.Param("interval_s", 86400)
-	secrets := []string{"sekret-stream", "sekret.subject", "sekret-message-body", "sekret-user", "sekret-password", "sekret-key"}
+	marked := prog.Param("marked", 0) == 1
+	secrets := []string{"sekret-stream", "sekret.subject", "sekret-message-body", "sekret-user", "sekret-password", "sekret-key",
+		"sekret-server-id", "sekret-namespace", "sekret-host", "sekret-nats", "sekret-datadir", "sekret"}
 	var rec *c19Recorder
+	var incs []*c19Inc
+	var runDir, twinID, blind string
+	seedID, seedFile := "", ""
+	if s := prog.Param("seedid", 0); s != 0 {
+		seedID, seedFile = c19SeedID(s)
+	}
 	envName := "LIFTBRIDGE_TELEMETRY_ENABLED"
 	oldEnv, hadEnv := os.LookupEnv(envName)
 	defer func() {
@@ -121,8 +307,9 @@ func execC19(t *testing.T, prog *hx.Program, dec *simrt.Decider, verbose bool) *
 	defer func() { http.DefaultTransport = oldTransport }()
 
 	oc := runH3(t, prog, dec, verbose, 1, func(h *h3) {
-		rec = &c19Recorder{sim: h.s}
+		rec = &c19Recorder{sim: h.s, cur: -1}
 		http.DefaultTransport = rec
+		runDir = h.dir
 		spell := func(b bool) string {
 			if b {
 				return []string{"true", "1", "TRUE"}[prog.Param("envform", 0)%3]
@@ -130,13 +317,19 @@ func execC19(t *testing.T, prog *hx.Program, dec *simrt.Decider, verbose bool) *
 			return []string{"false", "0", "FALSE"}[prog.Param("envform", 0)%3]
 		}
 		cfgFile := filepath.Join(h.dir, "liftbridge.yaml")
+		curWant := want // what the operator asks for at the next start
+		cfgInterval := time.Duration(interval) * time.Second
+		if interval == 0 {
+			cfgInterval = 24 * time.Hour // the documented default
+		}
 		h.baseConfig = func() *Config {
 			var c *Config
 			var err error
+			os.Unsetenv(envName)
 			switch route {
 			case 0: // programmatic
 				c = NewDefaultConfig()
-				c.Telemetry.Enabled = want
+				c.Telemetry.Enabled = curWant
 				if interval > 0 {
 					c.Telemetry.IntervalSeconds = int(interval)
 				}
@@ -144,21 +337,43 @@ func execC19(t *testing.T, prog *hx.Program, dec *simrt.Decider, verbose bool) *
 					c.Telemetry.IntervalSeconds = 0 // e.g. a Config whose Telemetry section was built from the zero value
 				}
 			case 1: // configuration file
-				y := fmt.Sprintf("telemetry:\n  enabled: %v\n", want)
+				y := fmt.Sprintf("telemetry:\n  enabled: %v\n", curWant)
 				if interval > 0 {
 					y += fmt.Sprintf("  interval.seconds: %d\n", interval)
 				}
 				if prog.Param("zero_interval", 0) == 1 {
-					y = fmt.Sprintf("telemetry:\n  enabled: %v\n  interval.seconds: 0\n", want)
+					y = fmt.Sprintf("telemetry:\n  enabled: %v\n  interval.seconds: 0\n", curWant)
 				}
 				os.WriteFile(cfgFile, []byte(y), 0o644)
 				c, err = NewConfig(cfgFile)
 			case 2: // environment only (the way the change log documents it)
-				os.Setenv(envName, spell(want))
+				os.Setenv(envName, spell(curWant))
 				c, err = NewConfig("")
-			default: // a configuration file that does not mention telemetry, plus the environment
+			case 3: // a configuration file that does not mention telemetry, plus the environment
 				os.WriteFile(cfgFile, []byte("logging:\n  level: error\n"), 0o644)
-				os.Setenv(envName, spell(want))
+				os.Setenv(envName, spell(curWant))
+				c, err = NewConfig(cfgFile)
+			default:
+				// a configuration file that enables telemetry, or has a telemetry section naming only the interval
+				// (telemetry is on by default), and the documented environment opt-out: the variable "takes
+				// precedence over the file" (config.go, applyTelemetryEnv). Asked for "on", the variable is not set.
+				iv := int64(cfgInterval / time.Second)
+				if prog.Param("zero_interval", 0) == 1 {
+					iv = 0
+				}
+				y := "telemetry:\n"
+				if f := prog.Param("fileform", 0); f >= 1 {
+					y += "  enabled: true\n"
+					if f == 2 {
+						y += fmt.Sprintf("  interval.seconds: %d\n", iv)
+					}
+				} else {
+					y += fmt.Sprintf("  interval.seconds: %d\n", iv)
+				}
+				os.WriteFile(cfgFile, []byte(y), 0o644)
+				if !curWant {
+					os.Setenv(envName, spell(false))
+				}
 				c, err = NewConfig(cfgFile)
 			}
 			if err != nil || c == nil {
@@ -169,7 +384,25 @@ func execC19(t *testing.T, prog *hx.Program, dec *simrt.Decider, verbose bool) *
 			return c
 		}
 		n := h.nodes[0]
-		faulted := false
+		if marked {
+			// everything that names this server, its place in the cluster and its surroundings is recognisable
+			n.id = "sekret-server-id"
+			n.dir = filepath.Join(h.dir, "sekret-datadir")
+			h.cfgHook = func(_ *simNode, c *Config) {
+				c.Clustering.Namespace = "sekret-namespace"
+				c.Host = "sekret-host.internal"
+				c.NATS.Servers = []string{"nats://sekret-nats-a:4222", "nats://sekret-nats-b:4222"}
+			}
+			h.s.Count("probe.marked_identity")
+		}
+		idFile := filepath.Join(n.dir, ".instance_id")
+		faulted, epoch, seedLive := false, 0, false
+		if seedFile != "" {
+			os.MkdirAll(n.dir, 0o755)
+			os.WriteFile(idFile, []byte(seedFile), 0o644)
+			seedLive = true
+			h.s.Count("probe.instance_id_seeded")
+		}
 		up := func() bool {
 			if n.up {
 				return true
@@ -178,17 +411,37 @@ func execC19(t *testing.T, prog *hx.Program, dec *simrt.Decider, verbose bool) *
 				faulted = true
 				os.MkdirAll(n.dir, 0o755)
 				if f == 1 {
-					os.MkdirAll(filepath.Join(n.dir, ".instance_id"), 0o755) // a directory where the file should be
+					os.MkdirAll(idFile, 0o755) // a directory where the file should be
 				} else {
-					os.WriteFile(filepath.Join(n.dir, ".instance_id"), nil, 0o444)
+					os.WriteFile(idFile, nil, 0o444)
 				}
 				h.s.Count("fault.instance_id_file")
 			}
-			if err := h.startNode(0); err != nil {
+			inc := &c19Inc{want: curWant, epoch: epoch, seeded: seedLive, interval: cfgInterval}
+			incs = append(incs, inc)
+			rec.cur = len(incs) - 1
+			if len(incs) > 1 && incs[len(incs)-2].want != inc.want {
+				h.s.Count("probe.restart_flipped_enabled")
+			}
+			err := h.startNode(0)
+			inc.node = n.node
+			if err != nil {
 				if len(h.s.Panics) == 0 {
 					h.oc.Trouble = "start: " + err.Error()
 				}
 				return false
+			}
+			inc.started = true
+			if c := n.srv.telemetry; c != nil {
+				inc.collector = true
+				if c19OwnTransport(c) && blind == "" {
+					blind = "the telemetry collector's HTTP client has a transport of its own: its requests do not reach the recorder"
+				}
+			}
+			if !inc.want {
+				if _, err := os.Stat(idFile); err == nil {
+					h.s.Count("probe.disabled_with_instance_id_file")
+				}
 			}
 			return h.waitController(60*time.Second) != nil
 		}
@@ -198,6 +451,13 @@ func execC19(t *testing.T, prog *hx.Program, dec *simrt.Decider, verbose bool) *
 			}
 			return
 		}
+		if prog.Param("twin", 0) == 1 {
+			// another installation on the same machine (the collector alone: it is what draws the id)
+			if c, err := telemetry.New(&telemetry.Config{Enabled: true, Interval: time.Hour, DataDir: filepath.Join(h.dir, "other-installation")}, Version, n.srv.logger); err == nil && c != nil {
+				twinID = c.GetInstanceID()
+				h.s.Count("probe.twin_installation")
+			}
+		}
 		created := false
 		for _, op := range prog.Ops {
 			if h.stop || h.oc.Trouble != "" || len(h.s.Panics) > 0 {
@@ -205,7 +465,11 @@ func execC19(t *testing.T, prog *hx.Program, dec *simrt.Decider, verbose bool) *
 			}
 			switch op.K {
 			case "sleep":
-				simrt.Sleep([]time.Duration{time.Second, time.Hour, 25 * time.Hour, 72 * time.Hour}[int(op.Arg(0, 0))%4])
+				d := c19Sleep(prog, op)
+				simrt.Sleep(d)
+				if n.up {
+					incs[len(incs)-1].upSleep += d
+				}
 			case "create":
 				if up() && !created {
 					h.rpc(n, "create", func(api *apiServer) {
@@ -237,6 +501,29 @@ func execC19(t *testing.T, prog *hx.Program, dec *simrt.Decider, verbose bool) *
 				if n.up {
 					h.stopNode(0)
 				}
+			case "flip":
+				// the operator changes the setting; it takes effect with the next start, which may be right now
+				curWant = !curWant
+				if op.Arg(0, 0)%2 == 0 {
+					if n.up {
+						h.stopNode(0)
+					}
+					up()
+				}
+			case "delid":
+				// the server goes down, the instance id file disappears (whatever it was), the server comes back
+				if n.up {
+					if op.Arg(0, 0)%2 == 0 {
+						h.stopNode(0)
+					} else {
+						h.crashNode(0)
+					}
+				}
+				os.RemoveAll(idFile)
+				epoch++
+				seedLive = false
+				h.s.Count("probe.instance_id_file_deleted")
+				up()
 			}
 		}
 		if n.up && !h.stop && len(h.s.Panics) == 0 {
@@ -246,72 +533,237 @@ func execC19(t *testing.T, prog *hx.Program, dec *simrt.Decider, verbose bool) *
 	if rec == nil || oc.Trouble != "" {
 		return oc
 	}
+	if blind != "" {
+		oc.Trouble = "C19 is blind: " + blind
+		return oc
+	}
 	fail := func(sig, format string, a ...any) {
 		if len(oc.Viol) == 0 {
 			oc.Fail("C19", sig, format, a...)
 		}
 	}
-	routes := []string{"programmatic config", "config file", "environment variable", "config file + environment variable"}
+	count := func(k string, n int) {
+		if oc.Counters == nil {
+			oc.Counters = map[string]int{}
+		}
+		oc.Counters[k] += n
+	}
+	routes := []string{"programmatic config", "config file", "environment variable", "config file + environment variable", "config file that enables telemetry + environment variable that disables it"}
+	routeSig := []string{"programmatic-config", "config-file", "environment-variable", "config-file-+-environment-variable", "config-file-enables-+-environment-variable-disables"}
+	if route == 4 {
+		routes[4] = []string{"config file naming only the telemetry interval", "config file with telemetry.enabled: true", "config file with telemetry.enabled: true and an interval"}[prog.Param("fileform", 0)%3] + " + environment variable that disables telemetry"
+	}
+
+	// what must not appear anywhere in a request
+	host, _ := os.Hostname()
+	facts := c19MachineFacts()
+	var hostWord *regexp.Regexp
+	if host != "" && !c19OnlyMachineFacts(host, facts) {
+		hostWord = regexp.MustCompile(`(^|[^A-Za-z0-9])` + regexp.QuoteMeta(host) + `($|[^A-Za-z0-9])`)
+	}
+	leak := func(text string) string {
+		for _, s := range secrets {
+			if strings.Contains(text, s) {
+				return s
+			}
+		}
+		if runDir != "" && strings.Contains(text, runDir) {
+			return runDir
+		}
+		return ""
+	}
+	memTotal := c19MemTotalGB()
+
 	oc.Checks++
-	if !want {
-		if len(rec.reqs) > 0 {
-			fail("C19/disabled-but-reported/"+strings.ReplaceAll(routes[route], " ", "-"), "telemetry was disabled through the %s, yet %d request(s) were made, the first to %s at %v", routes[route], len(rec.reqs), rec.reqs[0].url, rec.reqs[0].at)
-		}
-	} else {
-		ids := map[string]bool{}
-		for _, rq := range rec.reqs {
-			oc.Checks++
-			if !strings.HasPrefix(rq.url, "https://telemetry.basekick.net/") {
-				fail("C19/request-to-unexpected-host", "a request went to %s", rq.url)
-				break
-			}
-			var doc map[string]any
-			if err := json.Unmarshal(rq.body, &doc); err != nil {
-				fail("C19/payload-not-json", "the report is not a JSON object: %v", err)
-				break
-			}
-			var keys []string
-			c19Keys("", doc, &keys)
-			sort.Strings(keys)
-			for _, k := range keys {
-				if !c19Fields[k] {
-					fail("C19/undocumented-field", "the report carries the undocumented field %q (fields: %v)", k, keys)
-				}
-			}
-			for k := range c19Fields {
-				found := false
-				for _, x := range keys {
-					if x == k {
-						found = true
-					}
-				}
-				if !found {
-					fail("C19/documented-field-missing", "the report lacks the documented field %q (fields: %v)", k, keys)
-				}
-			}
-			id, _ := doc["instance_id"].(string)
-			if !c19UUID.MatchString(id) {
-				fail("C19/instance-id-not-a-random-uuid", "instance_id is %q", id)
-			}
-			ids[id] = true
-			for _, s := range secrets {
-				if bytes.Contains(rq.body, []byte(s)) {
-					fail("C19/user-data-in-report", "the report contains %q: %s", s, trunc(rq.body, 300))
-				}
-			}
-			if host, err := os.Hostname(); err == nil && host != "" && bytes.Contains(rq.body, []byte(`"`+host+`"`)) {
-				fail("C19/user-data-in-report", "the report contains the host name %q", host)
+	type idSeen struct {
+		id     string
+		seeded bool
+	}
+	byEpoch := map[int]idSeen{}
+	var epochs []int
+	for _, rq := range rec.reqs {
+		// whose request is it?
+		var inc *c19Inc
+		for _, x := range incs {
+			if x.node == rq.node {
+				inc = x
 			}
 		}
-		if len(ids) > 1 {
-			fail("C19/instance-id-changes", "the instance id changed across restarts: %v", simrt.Keys(ids))
+		if inc == nil && rq.inc >= 0 && rq.inc < len(incs) {
+			inc = incs[rq.inc]
+		}
+		if inc == nil {
+			oc.Trouble = fmt.Sprintf("a request to %s at %v belongs to no incarnation of the server", rq.url, rq.at)
+			return oc
+		}
+		inc.requests++
+		oc.Checks++
+		if !inc.want {
+			fail("C19/disabled-but-reported/"+routeSig[route], "telemetry was disabled through the %s (start #%d of the server, of %d), yet that server made a request to %s at %v (%d request(s) in the whole run)", routes[route], rq.inc+1, len(incs), rq.url, rq.at, len(rec.reqs))
+			break
+		}
+		if !strings.HasPrefix(rq.url, "https://telemetry.basekick.net/") {
+			fail("C19/request-to-unexpected-host", "a request went to %s", rq.url)
+			break
+		}
+		if rq.url != c19Endpoint {
+			fail("C19/request-url-not-the-endpoint", "a request went to %s, which is more than the telemetry endpoint %s", rq.url, c19Endpoint)
+			break
+		}
+		var hnames []string
+		for k := range rq.header {
+			hnames = append(hnames, k)
+		}
+		sort.Strings(hnames)
+		for _, k := range hnames {
+			if !c19Headers[k] {
+				fail("C19/undocumented-header", "the request carries the header %s: %q (headers: %v)", k, rq.header[k], hnames)
+			}
+			for _, v := range rq.header[k] {
+				if s := leak(k + ": " + v); s != "" {
+					fail("C19/user-data-in-request-header", "the header %s: %q contains %q", k, v, s)
+				}
+				if hostWord != nil && hostWord.MatchString(v) {
+					fail("C19/user-data-in-request-header", "the header %s: %q contains the host name %q", k, v, host)
+				}
+			}
+		}
+		if s := leak(rq.method + " " + rq.url); s != "" {
+			fail("C19/user-data-in-request-header", "the request line %s %s contains %q", rq.method, rq.url, s)
+		}
+		var doc map[string]any
+		if err := json.Unmarshal(rq.body, &doc); err != nil {
+			fail("C19/payload-not-json", "the report is not a JSON object: %v", err)
+			break
+		}
+		var keys []string
+		c19Keys("", doc, &keys)
+		sort.Strings(keys)
+		for _, k := range keys {
+			if !c19Fields[k] {
+				fail("C19/undocumented-field", "the report carries the undocumented field %q (fields: %v)", k, keys)
+			}
+		}
+		for _, k := range simrt.Keys(c19Fields) {
+			found := false
+			for _, x := range keys {
+				if x == k {
+					found = true
+				}
+			}
+			if !found {
+				fail("C19/documented-field-missing", "the report lacks the documented field %q (fields: %v)", k, keys)
+			}
+		}
+		id, _ := doc["instance_id"].(string)
+		if !c19UUID.MatchString(id) {
+			fail("C19/instance-id-not-a-random-uuid", "instance_id is %q", id)
+		}
+		if inc.seeded && id != seedID {
+			fail("C19/instance-id-file-not-honoured", "the data directory held the instance id file %q (a valid UUID, white space around it), the report carries instance_id %q", seedFile, id)
+		}
+		if seen, ok := byEpoch[inc.epoch]; !ok {
+			byEpoch[inc.epoch] = idSeen{id, inc.seeded}
+			epochs = append(epochs, inc.epoch)
+		} else if seen.id != id {
+			fail("C19/instance-id-changes", "the instance id changed across restarts although its file was left alone: %s, then %s", seen.id, id)
+		}
+		for _, s := range secrets {
+			if bytes.Contains(rq.body, []byte(s)) {
+				fail("C19/user-data-in-report", "the report contains %q: %s", s, trunc(rq.body, 300))
+			}
+		}
+		if runDir != "" && bytes.Contains(rq.body, []byte(runDir)) {
+			fail("C19/user-data-in-report", "the report contains the path %q: %s", runDir, trunc(rq.body, 300))
+		}
+		if hostWord != nil && bytes.Contains(rq.body, []byte(`"`+host+`"`)) {
+			fail("C19/user-data-in-report", "the report contains the host name %q", host)
+		}
+
+		// the documented fields hold what they are documented to hold
+		if v, _ := doc["liftbridge_version"].(string); v != Version {
+			fail("C19/version-field-not-the-version", "liftbridge_version is %q, the server's version is %q", doc["liftbridge_version"], Version)
+		}
+		ts, _ := doc["timestamp"].(string)
+		if when, err := time.Parse(time.RFC3339, ts); err != nil {
+			fail("C19/timestamp-not-the-time-of-the-report", "timestamp is %q: %v", doc["timestamp"], err)
+		} else if d := rq.wall.Sub(when); d < -time.Minute || d > time.Minute {
+			fail("C19/timestamp-not-the-time-of-the-report", "timestamp is %q, the report was sent at %s", ts, rq.wall.UTC().Format(time.RFC3339))
+		}
+		osinfo, _ := doc["os"].(map[string]any)
+		for _, k := range []string{"name", "version", "architecture", "platform"} {
+			if v, ok := osinfo[k].(string); !ok && osinfo[k] != nil {
+				fail("C19/os-field-not-os-information", "os.%s is %v, not a string", k, osinfo[k])
+			} else if !c19OnlyMachineFacts(v, facts) {
+				fail("C19/os-field-not-os-information", "os.%s is %q, which says more than what operating system, architecture and runtime this is (%v)", k, v, facts)
+			}
+		}
+		cpu, _ := doc["cpu"].(map[string]any)
+		mem, _ := doc["memory"].(map[string]any)
+		figure := func(name string, v any, lo, hi float64, whole bool) {
+			if v == nil {
+				return // "not available"
+			}
+			f, ok := v.(float64)
+			if !ok || f < lo || f > hi || (whole && f != math.Trunc(f)) {
+				fail("C19/cpu-memory-figure-implausible", "%s is %v; on this machine (%d logical CPUs, %.1f GB) it lies in [%v, %v]", name, v, runtime.NumCPU(), memTotal, lo, hi)
+			}
+		}
+		ncpu := float64(runtime.NumCPU())
+		figure("cpu.logical_cores", cpu["logical_cores"], ncpu, ncpu, true)
+		figure("cpu.physical_cores", cpu["physical_cores"], 1, ncpu, true)
+		figure("cpu.frequency_mhz", cpu["frequency_mhz"], 100, 100000, false)
+		if memTotal > 0 {
+			figure("memory.total_gb", mem["total_gb"], 1e-6, memTotal*1.01, false)
+		} else {
+			figure("memory.total_gb", mem["total_gb"], 1e-6, 1e6, false)
 		}
 	}
-	if oc.Counters == nil {
-		oc.Counters = map[string]int{}
+	// a new id after the file was deleted, and another one than the installation next door
+	for i, a := range epochs {
+		for _, b := range epochs[i+1:] {
+			if byEpoch[a].id == byEpoch[b].id && !byEpoch[b].seeded {
+				fail("C19/instance-id-not-random", "the instance id file was deleted between two starts and the server reports the same id again: %s", byEpoch[a].id)
+			}
+			count("probe.id_compared_across_deletion", 1)
+		}
 	}
-	oc.Counters["probe.reports_recorded"] = len(rec.reqs)
-	oc.Counters[fmt.Sprintf("probe.route.%d.enabled.%v", route, want)] = 1
+	if twinID != "" {
+		if !c19UUID.MatchString(twinID) {
+			fail("C19/instance-id-not-a-random-uuid", "a fresh installation's instance id is %q", twinID)
+		}
+		for _, e := range epochs {
+			if byEpoch[e].id == twinID {
+				fail("C19/instance-id-not-random", "two installations (two data directories) on one machine have the same instance id %s", twinID)
+			}
+			count("probe.id_compared_with_twin", 1)
+		}
+	}
+	// can the check see? An enabled incarnation with a collector that lived through more than a reporting interval
+	for i, inc := range incs {
+		if inc.want && inc.collector {
+			if inc.requests > 0 {
+				count("probe.enabled_incarnation_reported", 1)
+			} else if inc.upSleep >= inc.interval+time.Minute && len(oc.Viol) == 0 {
+				oc.Trouble = fmt.Sprintf("C19 is blind: start #%d had telemetry enabled, created its collector and was up for %v (interval %v), yet no request reached the recorder", i+1, inc.upSleep, inc.interval)
+				return oc
+			}
+		}
+		if inc.want && inc.started && !inc.collector {
+			count("probe.enabled_without_collector", 1) // the instance id file fault
+		}
+		if !inc.want && inc.started {
+			count("probe.disabled_incarnation_judged", 1)
+		}
+		if inc.seeded && inc.requests > 0 {
+			count("probe.seeded_id_reported", 1)
+		}
+		if inc.seeded && !inc.want && inc.started {
+			count("probe.seeded_id_with_telemetry_off", 1)
+		}
+	}
+	count("probe.reports_recorded", len(rec.reqs))
+	count(fmt.Sprintf("probe.route.%d.enabled.%v", route, want), 1)
 	oc.Nontrivial = true
 	return oc
 }
